@@ -169,12 +169,14 @@ def invoke_variants(ctx, rng):
                 r_ = 'budget'
             except Exception as ex:
                 r_ = 'raised %s' % type(ex).__name__
-            obs.append((e.name, repr(r_), len(comp.select_many('K')),
-                        tuple((i.N, i.S, i.F) for i in comp.select_many('K'))))
             if r_ == 'budget':
-                # where the budget cuts the call tree depends on timing: this model decides nothing
+                # where the budget cuts the call tree depends on timing: this model decides nothing (and the
+                # population is not observed either - the asynchronous cut may land inside a creation and
+                # leave a half-initialised instance behind, which is the harness's doing, not the library's)
                 ctx.count('invoke_models_discarded_cpu_budget')
                 return None, False
+            obs.append((e.name, repr(r_), len(comp.select_many('K')),
+                        tuple((i.N, i.S, i.F) for i in comp.select_many('K'))))
         if case == 'lower':
             ref = obs
             lower_text = '\n'.join('-- %s\n%s' % (e.name, e.text) for e in gen.elems)
